@@ -109,7 +109,7 @@ func isMetricType(t byte) bool {
 
 // ---------------------------------------------------------------- generators
 
-var keyPool = []string{"a", "b", "c", "x", "y", "ts", "n", "ops", "val", "k0", "k1", "long_key_name", "_u", "A", "é", "0", "1", "17"}
+var keyPool = []string{"", "a", "b", "c", "x", "y", "ts", "n", "ops", "val", "k0", "k1", "long_key_name", "_u", "A", "é", "0", "1", "17"}
 
 type schemaOpts struct {
 	maxDepth   int
